@@ -302,6 +302,45 @@ pub fn nm_period_replay(signal: &SignalBeam, pump: &PumpBeam, cs: &CrystalSetup,
   nm_period_replay_traced(signal, pump, cs, z).map(|r| r.0)
 }
 
+/// argument digests of the public calls behind the recorded oracle answers (Model/ConfigCheck.v checks them against the
+/// arguments the MODEL passes)
+pub fn beam_args(b: &Beam) -> Vec<f64> {
+  vec![*(b.vacuum_wavelength() / M), *(b.theta_internal() / RAD), *(b.phi() / RAD)]
+}
+pub fn signed_period_of(pp: &PeriodicPoling) -> f64 {
+  match pp {
+    PeriodicPoling::Off => 0.,
+    PeriodicPoling::On { period, sign, .. } => if *sign == Sign::POSITIVE { *(*period / M) } else { -*(*period / M) },
+  }
+}
+pub fn args_snell_ext(signal: &Beam, cs: &CrystalSetup) -> Value {
+  let mut v = beam_args(signal);
+  v.push(*(cs.theta / RAD));
+  v.push(*(cs.phi / RAD));
+  fxs_or_null(&v)
+}
+pub fn args_dkz0(signal: &Beam, pump: &Beam, cs: &CrystalSetup) -> Value {
+  let mut v = beam_args(signal);
+  v.push(*(pump.vacuum_wavelength() / M));
+  v.push(*(cs.theta / RAD));
+  v.push(*(cs.phi / RAD));
+  fxs_or_null(&v)
+}
+pub fn args_nm_theta(ext: f64, signal: &Beam, pump: &Beam, cs: &CrystalSetup) -> Value {
+  fxs_or_null(&[ext, *(signal.vacuum_wavelength() / M), *(signal.phi() / RAD), *(pump.vacuum_wavelength() / M), *(cs.phi / RAD)])
+}
+pub fn args_idler_theta(signal: &Beam, pump: &Beam, cs: &CrystalSetup, pp: &PeriodicPoling) -> Value {
+  let mut v = beam_args(signal);
+  v.push(*(pump.vacuum_wavelength() / M));
+  v.push(*(cs.theta / RAD));
+  v.push(*(cs.phi / RAD));
+  v.push(signed_period_of(pp));
+  fxs_or_null(&v)
+}
+pub fn fxs_or_null(v: &[f64]) -> Value {
+  Value::Array(v.iter().map(|x| fx_or_null(*x)).collect())
+}
+
 /// The shadow construction.  Returns {"steps": [...], "oracles": {...}, "shadow": setup or null}
 pub fn shadow(cfg: &SPDCConfig) -> Value {
   let mut steps: Vec<Value> = vec![];
@@ -334,6 +373,13 @@ pub fn shadow(cfg: &SPDCConfig) -> Value {
   orc.insert("ls_le_lp".into(), json!(ls <= lp));
   // oracles that depend on (signal, pump, cs0)
   let te = guarded_loc(|| *(signal.theta_external(&cs0) / RAD));
+  let mut args = Map::new();
+  args.insert("snell_ext".into(), args_snell_ext(&signal, &cs0));
+  args.insert("dkz0".into(), args_dkz0(&signal, &pump, &cs0));
+  if let Ok(x) = &te {
+    args.insert("nm_theta".into(), args_nm_theta(*x, &signal, &pump, &cs0));
+  }
+  orc.insert("args".into(), Value::Object(args.clone()));
   orc.insert("snell_ext".into(), match te { Ok(x) => fx_or_null(x), Err(_) => Value::Null });
   // the argument of that asin, n sin(theta_s), through the public index: the composed model's definedness guard is |.| <= 1
   let sa = guarded_loc(|| *signal.refractive_index(signal.frequency(), &cs0) * (*(signal.theta_internal() / RAD)).sin());
@@ -429,6 +475,8 @@ pub fn shadow(cfg: &SPDCConfig) -> Value {
     }
     AutoCalcParam::Auto(_) => {
       let o = outcome(|| IdlerBeam::try_new_optimum(&signal, &pump, &cs1, &pp));
+      args.insert("idler_theta".into(), args_idler_theta(&signal, &pump, &cs1, &pp));
+      orc.insert("args".into(), Value::Object(args.clone()));
       let val = match &o.3 { Some(b) => beam_json(b), None => Value::Null };
       orc.insert("idler_theta".into(), match &o.3 { Some(b) => fx_or_null(*(b.theta_internal() / RAD)), None => Value::Null });
       steps.push(step("idler_optimum", &(o.0.clone(), o.1.clone(), o.2.clone()), json!({"value": val})));
